@@ -42,6 +42,11 @@ def templates(backend: str, s) -> List[str]:
         f"ds.Select(lambda e: {J}.Count() > 2 and {J}[2].pt() > 5.0)",
         f"ds.Select(lambda e: ({J}[0].pt() if {J}.Count() > 0 else 0.0) + ({K}[0].pt() if {K}.Count() > 0 else 0.0))",
         f"ds.Select(lambda e: {J}.Select(lambda j: j.trkPts()[0]))",
+        # a collection whose declared container class is not a std:: one
+        f"ds.Select(lambda e: {J}.Select(lambda j: j.ptList()[0]))",
+        f"ds.Select(lambda e: {J}.Select(lambda j: j.ptList()[2] if j.ptList().Count() > 2 else -1.0))",
+        f"ds.SelectMany(lambda e: {J}).Select(lambda j: (j.ptList()[1], j.ptList().Count()))",
+        f"ds.Select(lambda e: {J}.Where(lambda j: j.ptList().Count() > 0 and j.ptList()[0] > 5.0).Select(lambda j: j.ptList().First()))",
         f"ds.Select(lambda e: {J}.Select(lambda j: j.trkPts()[0] if j.trkPts().Count() > 0 else -1.0))",
         f"ds.Select(lambda e: {J}.Select(lambda j: j.trkPts()[1] if j.trkPts().Count() > 1 else -1.0))",
         f"ds.Select(lambda e: {J}.Select(lambda j: j.trkPts().First()))",
